@@ -142,6 +142,26 @@ def extract(cfg, repo=None, cache=None):
         lock.close()
 
 
+class AliasDict(dict):
+    """dict whose lookups also accept alias keys; iteration is over the real keys only"""
+    def __init__(self, *a, **k):
+        dict.__init__(self, *a, **k)
+        self.alias = {}
+
+    def __getitem__(self, k):
+        if not dict.__contains__(self, k) and k in self.alias:
+            k = self.alias[k]
+        return dict.__getitem__(self, k)
+
+    def get(self, k, d=None):
+        if not dict.__contains__(self, k) and k in self.alias:
+            k = self.alias[k]
+        return dict.get(self, k, d)
+
+    def __contains__(self, k):
+        return dict.__contains__(self, k) or k in self.alias
+
+
 class Facts:
     def __init__(self, cfg, path):
         self.cfg = cfg
@@ -155,9 +175,13 @@ class Facts:
             rfns, rbuilt, self.inline_report = inline.inline_unknown(raw["fns"], raw.get("built", []), inline.load_inventory())
         except Exception as e:      # never let the convenience break the analysis: judge the functions as they are
             rfns, rbuilt, self.inline_report = raw["fns"], raw.get("built", []), {"error": repr(e)}
-        self.fns = {}
+        self.fns = AliasDict()
         for f in rfns:
             self.fns[f["key"]] = mir.Body(f, self)
+        # functions that moved: the old key still finds them (iteration shows each function once, under its current key)
+        for old, new in (self.inline_report.get("moved") or {}).items():
+            if new in self.fns:
+                self.fns.alias[old] = new
         self.built = {}
         for f in rbuilt:
             self.built[f["key"]] = mir.Body(f, self)
